@@ -1,4 +1,4 @@
-import WaVerif.Lemmas.C24Gram
+import WaVerif.Lemmas.C24RoundTrip
 import WaVerif.Gen.C24Variant
 /-!
 # C24 — property theorems (build-tag expressions)
@@ -63,6 +63,59 @@ example : parseLine (chars! "#wa:build a)") = .error .unexpectedTok := by rfl
 example : parseLine (chars! "#wa:build a & b") = .error .invalidSyntax := by rfl
 example : parseLine (chars! "#wa:build !!a") = .error .doubleNeg := by rfl
 example : parseLine (chars! "#wa:buildx") = .error .notConstraint := by rfl
+
+/-! ## printing and parsing again
+
+`Gen.wrapNot` is regenerated from the code on every run: does `NotExpr.String` parenthesise a
+negated negation?  On the pinned tree it does not, and then the round trip needs the guard
+`NoNotNot` — see the witness below, which is replayed on the real code by the check. -/
+
+/-- Full statement (for a printer variant `w`): every line that parses prints to a line that
+parses to an expression with the same value under every tag assignment. -/
+def ParseToStringStatement (w : Bool) : Prop :=
+  ∀ l e, parseLine l = .ok e →
+    ∃ e', parseLine (waBuildPrefix ++ ' ' :: str w e) = .ok e' ∧ ∀ ρ, eval ρ e' = eval ρ e
+
+/-- printing (with the printer found in the code) and parsing again gives an equivalent
+expression: for every expression with well-formed tags, provided the printer parenthesises
+`!(!x)` or the expression has no negation directly under a negation. -/
+theorem parse_toString (e : Expr) (hv : ValidTags e) (hr : Gen.wrapNot = true ∨ NoNotNot e) :
+    ∃ e', parseExpr (str Gen.wrapNot e) = .ok e' ∧ ∀ ρ, eval ρ e' = eval ρ e := by
+  obtain ⟨e', d, h⟩ := toks_derivable Gen.wrapNot e hr
+  refine ⟨e', ?_, h⟩
+  unfold parseExpr
+  rw [lexAll_str _ _ hv]
+  exact parse_complete _ _ d
+
+/-- the same for either printer variant (the statement above is this one at `Gen.wrapNot`) -/
+theorem parse_toString_any (w : Bool) (e : Expr) (hv : ValidTags e) (hr : w = true ∨ NoNotNot e) :
+    ∃ e', parseExpr (str w e) = .ok e' ∧ ∀ ρ, eval ρ e' = eval ρ e := by
+  obtain ⟨e', d, h⟩ := toks_derivable w e hr
+  refine ⟨e', ?_, h⟩
+  unfold parseExpr
+  rw [lexAll_str _ _ hv]
+  exact parse_complete _ _ d
+
+example : ValidTags (.and (.tag ['a']) (.or (.not (.tag ['b', '1'])) (.and (.tag ['c']) (.tag ['d'])))) ∧
+    NoNotNot (.and (.tag ['a']) (.or (.not (.tag ['b', '1'])) (.and (.tag ['c']) (.tag ['d'])))) := by
+  simp [ValidTags, ValidTag, NoNotNot, Expr.isNot]; decide
+
+/-- the guard is needed while the printer does not parenthesise a negated negation:
+`#wa:build !(!a)` parses, prints as `!!a`, and that is rejected — with the repaired printer it
+prints as `!(!a)` and re-parses to itself. -/
+theorem parse_toString_double_not_witness :
+    parseLine (chars! "#wa:build !(!a)") = .ok (.not (.not (.tag ['a']))) ∧
+    str false (.not (.not (.tag ['a']))) = chars! "!!a" ∧
+    parseLine (waBuildPrefix ++ ' ' :: str false (.not (.not (.tag ['a'])))) = .error .doubleNeg ∧
+    parseLine (waBuildPrefix ++ ' ' :: str true (.not (.not (.tag ['a'])))) = .ok (.not (.not (.tag ['a']))) :=
+  ⟨rfl, rfl, rfl, rfl⟩
+
+/-- hence the full statement is false for the unrepaired printer -/
+theorem parseToString_statement_false : ¬ ParseToStringStatement false := by
+  intro h
+  obtain ⟨e', he, _⟩ := h _ _ parse_toString_double_not_witness.1
+  rw [parse_toString_double_not_witness.2.2.1] at he
+  cases he
 
 /-! ## the loader's file filter -/
 
